@@ -36,6 +36,7 @@ var c06Programs = []string{
 	`a.$substringBefore($$.b.$substringBefore("z"))`, // built-in nested in its own argument
 	`$uppercase(a) & $x`,                             // registered variable
 	`a ~> $replace("z", "-", 1)`,                     // chain with a three-argument call (argument list with spare capacity in the tree)
+	`$join([a, $string($sum(o.k))], "-")`,            // built-ins that never take the context item ($join, $sum)
 }
 
 func c06Doc(thread int) interface{} {
